@@ -175,6 +175,12 @@ fn fen_variants(p: &Pos, rng: &mut Rng) -> Pos {
         1 => rng.range(1, 6000) as u32,
         _ => p.fmn.max(1),
     };
+    // any subset of the castling flags the placement allows is a valid FEN
+    for i in 0..4 {
+        if q.castle[i] && rng.chance(1, 4) {
+            q.castle[i] = false;
+        }
+    }
     q
 }
 
